@@ -14,6 +14,7 @@ import (
 	"github.com/256dpi/gomqtt/client"
 	"github.com/256dpi/gomqtt/client/future"
 	"github.com/256dpi/gomqtt/packet"
+	"github.com/256dpi/gomqtt/session"
 
 	"verifh/hx"
 )
@@ -96,6 +97,7 @@ type scn struct {
 	directs  map[string]string // extra clauses evaluated by a script on the implementation alone: clause -> "" (ok) | what failed
 	errGate  string            // the first ErrorCallback(io.EOF) (connection lost) blocks until this gate opens
 	errGated bool
+	gateSess bool   // the service runs on a gateSession
 	running  bool   // a Start returned true and no Stop returned true since
 	offGate  string // the first OfflineCallback blocks until this gate opens
 	envSlow  bool   // a timeout expired although the peer of that attempt answers promptly: the machine was too slow
@@ -367,6 +369,38 @@ func (s *scn) direct(clause, fail string) {
 	s.mu.Unlock()
 }
 
+// gateSession records SavePacket(Outgoing) and can hold the client's AllPackets(Outgoing) of a reconnect (the read that
+// precedes the re-sending of stored packets) until the dispatcher has had every chance to send a queued command
+type gateSession struct {
+	*session.MemorySession
+	s    *scn
+	alls int
+}
+
+func (g *gateSession) SavePacket(dir session.Direction, pkt packet.Generic) error {
+	if dir == session.Outgoing {
+		if id, ok := packet.GetID(pkt); ok {
+			g.s.ev("save %d %s", id, pkt.Type().String())
+		}
+	}
+	return g.MemorySession.SavePacket(dir, pkt)
+}
+
+func (g *gateSession) AllPackets(dir session.Direction) ([]packet.Generic, error) {
+	if dir == session.Outgoing {
+		g.s.mu.Lock()
+		g.alls++
+		k := g.alls
+		g.s.mu.Unlock()
+		g.s.ev("allpackets %d", k)
+		if k == 2 {
+			// bounded: a client that admits new requests only after the re-sends makes the dispatcher wait for us
+			g.s.waitCountD("send", 2, 300*time.Millisecond, false)
+		}
+	}
+	return g.MemorySession.AllPackets(dir)
+}
+
 func (s *scn) setup() {
 	sv := client.NewService(s.qcap)
 	sv.MinReconnectDelay = 1 * time.Millisecond
@@ -405,6 +439,9 @@ func (s *scn) setup() {
 		cfg.ClientID = "sv"
 	}
 	cfg.ValidateSubs = true
+	if s.gateSess {
+		sv.Session = &gateSession{MemorySession: session.NewMemorySession(), s: s}
+	}
 	s.svc = sv
 	s.cfg = cfg
 }
